@@ -118,6 +118,19 @@ SPEC = dict(
          "exception is due or conversely, PanicException / interpreter crash or hang where the core does not panic. "
          "DIFF: kind of exception differs from the model, missing oracle entry, a core result that depends on the "
          "history of the sequence object. Every case runs in a child interpreter, a crash is an observation. "
+         "Round 3: every history is also run through the lazy reading of the scanners (run_call_lazy: a scanner follows the live "
+         "sequence object through later calculate / scan calls, deletion and rebinding of its name; each next() is a core scan of the "
+         "sequence as it is now minus the hits handed out) and must agree step by step with the eager reading (DIFF `live scanner`). "
+         "Thread cases (`mt`): n threads sharing a scoring matrix with their own sequences must obtain the sequential results; n threads "
+         "calculating on ONE shared sequence obtain the sequential result or RuntimeError (already borrowed); the first p-value asked "
+         "while another thread is inside calculate() raises nothing. File objects whose k-th read() raises KeyError / PermissionError / "
+         "OSError, returns str / None / too many bytes or closes the file: load() / next() raise that very exception (TypeError / OSError "
+         "for the two glue-made ones), items before and after are the core reader's over the same failing stream. create() from "
+         "generator objects; CountMatrix columns without len(); paths as str, bytes, pathlib.Path; EncodedSequence constructor and "
+         "methods, __eq__ / str / copy of the matrix classes, score_distribution (cache) - ops es et cp eq sr sd fo ll ln mt. A PROPFAIL "
+         "detail names the core operation that panicked (core-call=dist_sf|dist_pvalue|dist_score|tfm_pvalue|...). Corpus: "
+         "corpus/C17/regress.txt (+threads, live-scanner, generators-paths, continued-load-gl, continued-load-len), known_f28.txt "
+         "(must pass since /repo a1b1f91). 60 theorems in C17.v. "
          "Non-trivial: distinct history in which some object receives at least two calls.",
     trusted_base=[
         "Coq 8.16.1 kernel (coqc); vm_compute only in the Example lemmas; no native_compute",
@@ -125,7 +138,8 @@ SPEC = dict(
         "for the f64->f32 conversions); OCaml 4.13.1 with zarith for decimal <-> Z",
         "hand-written OCaml driver ocaml/pyglue/driver.ml (parsing, rendering of values, oracle table lookup)",
         "translator translate/pyglue_sig.py (regular expressions over #[pyo3(signature)] attributes, the string arms of "
-        "`match method` / `match format`, Alphabet::as_str) -> coq/pyglue/GenPySig.v",
+        "`match method` / `match format`, Alphabet::as_str, and every `Py<Class>::new_err(\"message\")` site of lib.rs / io.rs / "
+        "pyfile.rs) -> coq/pyglue/GenPySig.v",
         "CPython 3.11.7, PyO3 0.22 (argument extraction rules for f32/f64/u32/usize/bool/&str/PyDict/PyList as "
         "modelled in PyGlueModel.v; conversion of Rust panics into PanicException)",
         "harness crate /verif/pyharness (lmpy, lmcore: thin wrappers calling the public core API, catch_unwind) and "
@@ -141,9 +155,20 @@ SPEC = dict(
         "re-validates this on every calculate (fresh versus reused sequence) and reports a DIFF otherwise",
         "py_panic_only_from_core assumes core_total (the core never panics and its infallible operations return a "
         "value); a PanicException is always reported; where lmcore observes a core panic on the same data the "
-        "detail says `core-also-panics` (what is left of known finding F25: TfmPvalue on some finite matrices)",
+        "detail says `core-also-panics core-call=<operation>` (what is left of known finding F25: pvalue(score, 'tfmpvalue') with a score "
+        "so large that score/granularity leaves the i64 range, e.g. 1e30 - the core TfmPvalue overflows on the same data, tfm's "
+        "known finding F35 huge-score; F26, F27 and F28 are repaired: /repo df3a2dd, e7689c9, a1b1f91)",
         "dictionaries have distinct keys (Python); column objects with inconsistent __len__/__iter__ are not generated",
         "file objects: read(n) returning at most n bytes is equivalent to the concatenated bytes (C14 chunk independence)",
+        "py_scanner_lazy_eq_eager assumes scan_stable (a successful core scan is not changed by further configure() calls on the "
+        "sequence: C02 + C04); the driver reports a DIFF when the two readings differ on observed data",
+        "py_threads_independent is about atomic calls (GIL); calculate / threshold / max / argmax / create release the GIL while they "
+        "hold their borrows - the `mt` cases check that this is not observable (the `mt` verdict is decided by the worker: concurrent "
+        "== sequential; `mt` is not an op of the model)",
+        "the lazy reading treats the core scanner as restartable (its hits in order are a function of matrix, sequence rows, threshold "
+        "and block size; the hits handed out are a prefix)",
+        "py_items_no_panic assumes readers_total (no core reader panics: C15) and is about the two producers of iteration results "
+        "(glue_load, lazy_take)",
     ],
 )
 
